@@ -1721,6 +1721,8 @@ class Path:
         v = None
         for i, x in enumerate(e.values):
             v = self.eval(x)
+            if isinstance(v, SUnion) and i < len(e.values) - 1:
+                v = self.choose(v)     # the operand value itself may be returned: resolve the alternative first
             if i == len(e.values) - 1:
                 return v
             t = self.is_true(v)
